@@ -3,6 +3,7 @@ import pyModeS as pms
 from ref import do260 as L
 from ref import frames
 from vlib import variants
+from vlib import gen
 from vlib.core import Leg, call
 
 A = pms.adsb
@@ -24,7 +25,7 @@ ASSUMPTIONS = ["every non-zero TC28 emergency state (incl. 6 'downed aircraft' a
 
 
 def mk(me, rng):
-    m = frames.tohex(frames.df17(rng.getrandbits(24), me, ca=rng.getrandbits(3), df=rng.choice([17, 18])), 112, rng.choice("ULM"))
+    m = frames.tohex(frames.df17(gen.addr24(rng), me, ca=rng.getrandbits(3), df=rng.choice([17, 18])), 112, rng.choice("ULM"))
     if rng.getrandbits(2) == 0:
         variants.prelude(pms, m)   # helpers on the same string, and other message types of the same aircraft, decoded first
     return m
